@@ -1,7 +1,9 @@
 import AvroModel.Theorems.NonVacuityA
 import AvroModel.Theorems.NonVacuityB
 import AvroModel.Theorems.NonVacuityC
+import AvroModel.Theorems.NonVacuityD
 import AvroModel.Theorems.NonVacuityE
+import AvroModel.Theorems.NonVacuityE2
 import AvroModel.Theorems.NonVacuityF
 /-
 Non-vacuity audit of the registered property theorems: index.
@@ -14,23 +16,64 @@ as theorems the cases in which a hypothesis is NOT met by the function the drive
   NonVacuityA   C01 C02 C03     (imports Driver.Parse for the real `ExtTable.toExt`)
   NonVacuityB   C04 C11 C12 C18
   NonVacuityC   C05 C06 C15 C16 C17
-  NonVacuityD   C07 C08         (SchemaParse side: cannot be imported with E / F, not listed above)
+  NonVacuityD   C07 C08
   NonVacuityE   C09 C10 C19     (SchemaRender side)
-  NonVacuityE2  C09_reparsed_*  (SchemaParse side, not listed above)
+  NonVacuityE2  C09_reparsed_*  (SchemaParse side)
   NonVacuityF   C13 C14 C20
 
-Hypotheses proved UNMEETABLE by what is really run (names of the proved statements):
+Hypotheses the audit proved UNMEETABLE by what is really run, ALL REPAIRED since (the statements
+of the registered theorems were changed; the audit's negative results are kept as facts about the
+FORMER hypotheses):
   * `ExtOK ext` (C01_ser_canonical*, C01_roundtrip_impl*, C02_sound_*, C02_unrepresentable_err):
-    false for `ExtTable.toExt t`, every table `t`                      — `NonVacuityA.toExt_not_ExtOK`
+    its clause `rescale` was unconditional and false for `ExtTable.toExt t`, every table `t`
+    (`NonVacuityA.toExt_not_ExtOK_unconditional`).  REPAIRED: the clause is conditional on the
+    argument fitting `i128`; `Theorems.toExt_ExtOK` (every table passing the range check
+    `ExtTable.ok`, which the driver's parser now applies: `Theorems.pExtEntries_ExtOK`); the
+    instances of NonVacuityA use the driver's own `toExt`.
   * `st1.Le stF` (C07_order_independent_ref, C07_forward_ref_eq_late_lookup, C07_backward_ref_stable,
     C07_node_stable): false for the final registration state of a nested reference
-                                                 — `NonVacuityD.le_to_final_state_fails`
-  * `NamesWf.hash_inj` / `NameInj` (C20_names_distinct, C20_names_distinct_of_nameInj): false for
-    every hash with finitely many values, the driver's included
-                                                 — `NVF20.namesWf_unmeetable_by_finite_hash`
+    (`NonVacuityD.le_to_final_state_fails`).  REPAIRED: `PState.LeNU` (names / unresolved) resp.
+    `PState.LeExcept op` (all slots but the enclosing placeholders); instantiated on the real final
+    state of a real `registerNode` run (`NonVacuityD.leX_1_F`, `leNU_1_F`).
+  * `NamesWf.hash_inj` / `NameInj` (now only of the corollaries C20_names_distinct_global,
+    C20_names_distinct_of_nameInj_global): false for every hash with finitely many values, the
+    driver's included (`NVF20.namesWf_unmeetable_by_finite_hash`).  REPAIRED:
+    C20_names_distinct / C20_names_distinct_of_nameInj ask `NamesWfOn` on `genericRecordKeys` /
+    `NameInjOn` on `builtKeys` (finite lists computed from the build; decidable), met by the
+    driver's hash (`NVF20.names_distinct_driverHash_closed`).
   * `hserv` of C13_recordValue_invariant: false for the real field serializer
-                                                 — `NVF.recordValue_invariant_hserv_unmeetable`
-Content-free registered statements: `C03_block_sizes_checked` (`fun _ _ h => h`),
-`C13_flush_invariant` (identity under its hypothesis, `NVF.flush_invariant_is_identity`),
-`C18_write_read_slice` (= `C18_accepts_slice`, does not mention the writer).
+    (`NVF.recordValue_invariant_hserv_unmeetable`, now about the lemma `recordValue_inv`).
+    REPAIRED: the hypothesis is that of `recordValue_inv_gen` at `PoolClean`;
+    `C13_recordValue_invariant_ser` discharges it for the real `ser`.
+Content-free registered statements, REPLACED:
+  * `C03_block_sizes_checked` (was `fun _ _ h => h`): now "a first block header with a negative
+    count and a negative byte size is never deserialized into a value", instance in NonVacuityA.
+  * `C13_flush_invariant` (was the identity under its hypothesis): now
+    `RecInv … rs s → flushBuffered fuel rs s = (.ok rs, s)`, instance in NonVacuityF.
+  * `C18_write_read_slice` (was `C18_accepts_slice`): REMOVED; `C18_write_read`,
+    `C18_write_read_msg` (Theorems/C18full.lean) compose `C18_frame`, `C01_roundtrip_impl`,
+    `C18_accepts_slice` with the real `ser` and `de`; instance `NVB.cyc_write_read`.
+
+Fuel (the driver's fuels are now DEFINED in the model, `Lemmas/DriverFuel.lean`: `Avro.Impl.deFuel`,
+`Avro.Impl.graphFuel`; `Driver/Main.lean` and the audit files use these very definitions, no copies):
+  * `de`: the driver's historical formula (`deFuelBase`) could be below `fuelBound`, the lower end
+    of the fuel range of the C04 theorems (`NVB.driver_fuel_base_insufficient`: `panic` = out of
+    fuel on a valid input).  The driver now passes `deFuel = max deFuelBase fuelBound`:
+    `fuelBound_le_deFuel` (unconditional), `C04_fuel_independent_at_deFuel`,
+    `C04_no_panic_at_deFuel`, `C04_ok_or_err_at_deFuel` (`Theorems/C04fuel.lean`);
+    `NVB.driver_fuel_sufficient` (the same instance: `Ok`), `NonVacuityA` §6
+    (`C01_de_accepts_at_driverFuel`, `C03_de_refines_spec_at_driverFuel`).
+  * `canonicalForm` / `renderJson` / `freeze` / `schemaFingerprint`: the conclusions
+    `∀ fuel, n + 2 ≤ fuel → canonicalForm S fuel = .ok text` of C07_valid_parses_*, C08_pcf_is_spec*,
+    C09_reparsed_* need not contain `graphFuel S` (`NonVacuityD.padded_fuel_gap`,
+    `NonVacuityE2` `gEnum`).  `Theorems/GraphFuel.lean`: `pcfBound_le_graphFuel`,
+    `renderBound_le_graphFuel`, `C19_{pcf,render,freeze,fingerprint}_total_at_graphFuel`, and the
+    corollaries `C07_valid_parses_and_resolves_at_graphFuel`, `C07_valid_parses_checked_at_graphFuel`,
+    `C08_pcf_is_spec_at_graphFuel`, `C08_pcf_is_spec_text_at_graphFuel`,
+    `C09_render_has_graph_pcf_at_graphFuel`, `C09_reparsed_has_same_pcf_at_graphFuel`,
+    `C09_reparsed_canonicalForm_eq_at_graphFuel` conclude at `graphFuel S` itself; instances in
+    `NonVacuityD` (A, E), `NonVacuityE`, `NonVacuityE2`.
+  * `Lemmas/SchemaParse` and `Lemmas/SchemaRender` CAN now be imported together (the five clashing
+    helper lemmas of `Lemmas/SchemaRender.lean` are `private`); `NonVacuityD` and `NonVacuityE2`
+    import `Theorems/GraphFuel.lean`, which imports both sides.
 -/
